@@ -441,7 +441,7 @@ func Run(w *sim.World, opt Options) *Outcome {
 	// leads again and its old entry is on a majority, it cuts L off and lets B run for
 	// election. Every choice (who, when timers fire, what is delivered) is still drawn from
 	// the stream; only the weights depend on the observed state.
-	hunt := n == 3 && !flap && w.Choose(sim.KCfg, 2) == 1
+	hunt := !flap && ((n == 3 && w.Choose(sim.KCfg, 2) == 1) || (n > 3 && w.Choose(sim.KCfg, 4) == 1))
 	hs, hL, hB, hK, hSince := 0, 0, 0, 0, 0
 	suppressAE := 0
 	if hunt {
